@@ -476,8 +476,9 @@ def xml_canon(elem):
     return (elem.tag, tuple(sorted(elem.attrib.items())), (elem.text or "").strip(), tuple(xml_canon(c) for c in elem))
 
 
-def run_history(mode, flags, W, tag):
-    """Call toasty.tile_fits along one history; observe after every call."""
+def run_history(mode, flags, W, tag, default_outdir=False):
+    """Call toasty.tile_fits along one history; observe after every call.
+    default_outdir: leave out_dir to tile_fits (a directory next to the input file)."""
     import toasty
     from toasty import tile_fits, TilingMethod, fits_tiler
     from toasty.builder import Builder
@@ -489,6 +490,12 @@ def run_history(mode, flags, W, tag):
         else:
             mk_fits(src, 64, 48, 0.3)
     out_dir = os.path.join(W, f"h_{mode}_{tag}")
+    if default_outdir:
+        # a private copy of the input, so that the default output directory is this history's own
+        src2 = os.path.join(W, f"hd_{mode}_{tag}.fits")
+        shutil.copyfile(src, src2)
+        src = src2
+        out_dir = src2[:-len(".fits")] + "_tiled" + ("_TOAST" if mode != "TAN" else "")
     shutil.rmtree(out_dir, ignore_errors=True)
     pb = Builder(PyramidIO(out_dir + "_none", default_format="fits"))
     pristine = describe(pb.imgset, pb.place)["astro"]
@@ -505,7 +512,10 @@ def run_history(mode, flags, W, tag):
     fits_tiler.FitsTiler.tile = wrapped
     try:
         for ov in flags:
-            od, b = quiet(tile_fits, src, out_dir=out_dir, tiling_method=method, parallel=1, override=bool(ov))
+            if default_outdir:
+                od, b = quiet(tile_fits, src, tiling_method=method, parallel=1, override=bool(ov))
+            else:
+                od, b = quiet(tile_fits, src, out_dir=out_dir, tiling_method=method, parallel=1, override=bool(ov))
             imgset, place = read_wtml(od)
             returned = describe(b.imgset, b.place, pristine)
             ondisk = describe(imgset, place, pristine)
@@ -626,6 +636,11 @@ def run(ctx, V):
     for mode, h in plan:
         tag = "".join(str(f) for f in h)
         out_dir, obs = run_history(mode, h, W, tag)
+        hists.append((mode, h, out_dir, obs))
+    # the same histories with out_dir left to tile_fits (default directory next to the input)
+    for mode, h in [("TAN", [0, 0]), ("TAN", [0, 1, 0]), ("TOAST", [0, 0])]:
+        tag = "d" + "".join(str(f) for f in h)
+        out_dir, obs = run_history(mode, h, W, tag, default_outdir=True)
         hists.append((mode, h, out_dir, obs))
     badh = common.coq_eval_sharded(COQ_DEFS, [g_hist(od, h, obs) for (_m, h, od, obs) in hists], "chk_hist", imports,
                                    shard=12, jobs=8, name="c17h")
